@@ -62,7 +62,12 @@ META = dict(
          "one-after-the-other broker: coroutine-function bodies without a suspension point, bodies that really await (sleep(0), "
          "timer, future), pool-thread functions, every other task-function shape / failure kind, broker options, bystander tasks, "
          "most of them with no_result_on_retry off; there 'the final attempt's outcome is the stored result' is judged on what the "
-         "real InmemoryResultBackend holds for the task id once all spawned work has settled",
+         "real InmemoryResultBackend holds for the task id once all spawned work has settled. "
+         "About 15 % of the env / in-memory cases (~90 random + 63 grid cases of a quick run) script the HOST'S WALL CLOCK as taskiq reads "
+         "it (time.time(), wherever the package bound it; in a third of them also time.time itself): while the body of a chosen attempt "
+         "(first / middle / final, one or several per chain) runs - between the two readings Receiver.run_task measures the attempt with - "
+         "the clock steps backwards (4 ms .. 54 years) or forwards, is set to an absolute value (epoch 0, 2**31), or stands still; "
+         "different epochs and loop-clock origins; the statement does not mention the clock, so no observation may change",
     trusted_base=["model: coq/theories/Retry.v + Labels.v + Base64.v (hand-written transcription of retry_middleware.on_error, the "
                   "NoResultError test in Receiver.callback, kicker re-send)",
                   "CPython str(float)/float(str) round trip (Section hypothesis float_roundtrip)",
@@ -73,7 +78,9 @@ META = dict(
                   "building blocks of retry_driver.py (task function shapes, bystander middlewares, listen-session wrapper) and "
                   "harness/cli_glue.py (real WorkerArgs.from_cli + start_listen with its imports replaced); the exception "
                   "builder of retry_driver.py (specs -> exception objects, ChildBackend / DropBroker for sub-tasks that never "
-                  "finish, the module global `time` of taskiq.task / taskiq.funcs bound to the virtual clock); the in-memory "
+                  "finish); the wall-clock stand-in of retry_driver.py (put in by identity wherever the package bound time.time - "
+                  "harness/patchall.py -: the loop's virtual time, or the case's scripted WallClock whose events are tied to the "
+                  "driver's own task body); the in-memory "
                   "path of retry_driver.py (InMemScenario: subclass of InMemoryBroker whose kick notes the sender and calls the "
                   "real kick, recording subclass of InmemoryResultBackend, attribution of events to deliveries by a context "
                   "variable set around the real Receiver.callback / the message handed to the real run_task, the settle loop)"],
@@ -466,6 +473,8 @@ def gen_inmem_env(r):
                 env[pos] = [r.choice(kinds) for _ in range(n)]
     if r.random() < .2:
         env["retry_cls"] = "sub"
+    if r.random() < WALL_SHARE:
+        env["wall"] = gen_wall(r)
     return env
 
 
@@ -521,6 +530,83 @@ def inmem_grid():
     for i, e in enumerate(envs):
         for b in (ffs_all, others[i % len(others)]):
             out.append(with_env(dict(b, ser="pickle" if i % 6 == 5 else "json"), dict(e, broker="inmem")))
+    return out
+
+
+# ------------------------------------------------------------------ the host's wall clock (retry_driver's env["wall"])
+# Receiver.run_task measures an attempt with time.time(); the statement does not mention the clock, so whatever the host's clock
+# does while an attempt runs (NTP step backwards / forwards, `date -s`, VM restore, a coarse tick that makes two readings equal)
+# must not change the number of executions, what is re-sent, or what is stored.  plan[i] = the event during the i-th body.
+WALL_BASES = [1.7e9, 1.7e9, 1.7e9, 0.0, 86400.0, 4102444800.0, 1.7e9 + 0.995, 2.0 ** 31 - 1.0]
+WALL_BACK = [-0.004, -0.006, -0.01, -0.5, -1.0, -5.0, -3600.0, -86400.0 * 365, -1.7e9]
+WALL_FWD = [0.004, 0.01, 0.5, 3600.0, 1e9]
+WALL_SET = [0.0, 946684800.0, 1.7e9, 1.7e9 - 0.25, 2.0 ** 31]
+WALL_SHARE = .15        # of the generated env / inmem cases
+
+
+def gen_wall_op(r):
+    k = r.random()
+    if k < .5:
+        op = {"step": r.choice(WALL_BACK)}
+    elif k < .68:
+        op = {"step": r.choice(WALL_FWD)}
+    elif k < .82:
+        op = {"set": r.choice(WALL_SET)}
+    else:
+        op = {"freeze": 1}
+    if r.random() < .25:
+        op["late"] = True
+    return op
+
+
+def gen_wall(r):
+    n = r.choice([1, 1, 2, 2, 3, 4])
+    plan = [gen_wall_op(r) if r.random() < .6 else None for _ in range(n)]
+    if not any(plan):
+        plan[r.randrange(n)] = gen_wall_op(r)
+    w = {"plan": plan}
+    if r.random() < .5:
+        w["base"] = r.choice(WALL_BASES)
+    if r.random() < .3:
+        w["mono0"] = r.choice([0.5, 12345.678, 86400.0 * 40])
+    if r.random() < .3:
+        w["scope"] = "global"
+    return w
+
+
+def wall_grid():
+    """every kind of clock event during the first / a middle / the final attempt, on three retry situations and the shapes of
+    task function / delivery / broker - always run"""
+    def mk(outs, labels, count, label, nror):
+        return dict(ser="json", mw=dict(count=count, label=label, nror=nror), labels=labels, outs=outs, args=[1, "x"],
+                    kwargs={"kw": "v"}, guard=30)
+    on = [[K("max_retries"), {"t": "int", "v": "3"}], [K("retry_on_error"), {"t": "bool", "v": True}]]
+    ffs = mk(["F", "F", "S"], on, 2, False, True)
+    ffs_all = mk(["F", "F", "S"], on, 2, False, False)
+    fff = mk(["F"], [[K("u"), {"t": "str", "v": K("user")}]], 4, True, False)
+    fn_ = mk(["F", "N"], [[K("max_retries"), {"t": "str", "v": K("5")}], [K("retry_on_error"), {"t": "str", "v": K("True")}]], 1, False, True)
+    ops = [{"step": -5.0}, {"step": -0.006}, {"step": -0.004}, {"step": -86400.0 * 365}, {"step": 3600.0}, {"set": 0.0}, {"set": 2.0 ** 31},
+           {"freeze": 1}, {"step": -1.0, "late": True}, {"freeze": 1, "late": True}]
+    shapes = [{}, {"fn": "sync"}, {"via": "listen", "A": None, "ackable": "async"}, {"fresh": True}, {"fn": "dep_fails"}, {"propagate": False},
+              {"fn": "gen_dep"}, {"broker": "inmem"}, {"broker": "inmem", "pause": "timer"}, {"broker": "inmem", "fn": "sync", "bystanders": 2},
+              {"pause": "timer"}, {"fail_by": "timeout", "timeout_label": TIMEOUT_VALUES[1]}, {"mw_before": ["async_err"], "mw_after": ["touch"], "retry_cls": "sub"},
+              {"fail_by": "exc", "exc": [{"k": "real", "how": "wait_result"}]}, {"fail_by": "exc", "exc": [{"k": "builtin", "name": "asyncio.CancelledError"}]}]
+    out, n = [], 0
+    for oi, op in enumerate(ops):
+        for at in (0, 1, 2):
+            plan = [None] * at + [dict(op)]
+            for base in ((ffs, ffs_all)[n % 2], (fff, fn_)[(n // 2) % 2]):
+                w = {"plan": plan}
+                if n % 3 == 1:
+                    w["scope"] = "global"
+                if n % 4 == 2:
+                    w.update(base=WALL_BASES[3 + n % 5], mono0=12345.678)
+                out.append(with_env(base, dict(shapes[n % len(shapes)], wall=w)))
+                n += 1
+    # the clock changes during every attempt; typed arguments
+    out.append(with_env(ffs_all, {"wall": {"plan": [{"step": -2.0}, {"step": -2.0}, {"step": -2.0}]}}))
+    out.append(with_env(fff, {"wall": {"plan": [{"freeze": 1}, {"step": 7.0}, {"set": 0.0}, {"step": -0.5, "late": True}], "scope": "global"}, "fn": "sync"}))
+    out.append(with_env(fff, {"broker": "inmem", "wall": {"plan": [{"step": -3.0}, None, {"step": -3.0}]}, "pause": "sleep0"}))
     return out
 
 
@@ -598,6 +684,8 @@ def gen_env(r):
         env["retry_cls"] = "sub"
     if r.random() < .35:
         env["cli"] = cli_argv(recv_opts(env, r))
+    if r.random() < WALL_SHARE:
+        env["wall"] = gen_wall(r)
     return env
 
 
@@ -758,7 +846,44 @@ def count_env(rep, c, o):
         rep.count("env:middlewares-added-after-receiver-construction")
     if len(o.get("execs", [])) > 1:
         rep.count("env:cases-with-a-re-send")
+    count_wall(rep, c, o)
     count_exc(rep, c, o)
+
+
+def wall_op_label(op):
+    if "step" in op:
+        s = abs(op["step"])
+        return "step-%s:%s" % ("backwards" if op["step"] < 0 else "forwards", "<0.005s (rounds to 0)" if s < .005 else "<1s" if s < 1 else
+                               "<=1h" if s <= 3600 else ">1h")
+    return "set-to-an-absolute-value" if "set" in op else "stands-still"
+
+
+def count_wall(rep, c, o):
+    """the host's wall clock as an input dimension: what the generated plans asked for and what really happened"""
+    env = c["env"]
+    w = env.get("wall")
+    if not w:
+        rep.count("wall:none (the clock read by taskiq moves with the loop's virtual time)")
+        return
+    ob = o.get("wall") or {}
+    ex = o.get("execs", [])
+    rep.count("wall:cases")
+    rep.count("wall:broker=" + env.get("broker", "scripted"))
+    rep.count("wall:scope=" + w.get("scope", "bound (wherever the package bound time.time)"))
+    rep.count("wall:epoch-reading-at-start=%s" % ("default (1.7e9)" if "base" not in w else "%g" % w["base"]))
+    rep.count("wall:loop-clock-origin=%g" % w.get("mono0", 0))
+    rep.count("wall:task-function=" + env.get("fn", "async"))
+    rep.count("wall:events-planned=%d,happened=%d" % (len([op for op in w["plan"] if op]), len(ob.get("events", []))))
+    dom = in_domain(c)
+    for n, stage, _, _ in ob.get("events", []):
+        op = w["plan"][n]
+        rep.count("wall:event=" + wall_op_label(op))
+        rep.count("wall:event-when=" + ("right before the body acts" if stage == "late" else "at the body's first statement"))
+        rep.count("wall:event-during-attempt=%d" % n)
+        if dom is not None and n < len(ex):
+            rep.count("wall:event-during=" + ("an attempt that must be re-sent" if n < len(ex) - 1 else "the final attempt") + " (statement domain)")
+    if any(float.fromhex(d) < 0 for d in ob.get("durations", [])):
+        rep.count("wall:cases-where-a-stored-result-carries-a-negative-measured-duration")
 
 
 def body_suspends(env):
@@ -1135,7 +1260,7 @@ def run(ctx):
     re_ = ctx.sub_rng("env")
     exception_info(ctx, rep)
     ri = ctx.sub_rng("inmem")
-    broken = explore(ctx, rep, env_grid() + exc_grid() + inmem_grid() + [gen_env_case(re_) for _ in range(ctx.n(400, 12000))]
+    broken = explore(ctx, rep, env_grid() + exc_grid() + inmem_grid() + wall_grid() + [gen_env_case(re_) for _ in range(ctx.n(400, 12000))]
                      + [gen_inmem_case(ri) for _ in range(ctx.n(150, 4500))], "env") or broken
     rt = ctx.sub_rng("typed")
     broken = explore(ctx, rep, typed_grid() + [gen_typed_case(rt) for _ in range(ctx.n(300, 9000))], "typed") or broken
@@ -1227,6 +1352,11 @@ def replay(ctx, path):
         print("exceptions raised by the attempts (chosen by the case, env['exc'] / env['nr']):",
               json.dumps([[exc_label(e["spec"]) if e["spec"].get("k") not in NR_KINDS else "no-result signal " + e["spec"]["k"],
                            e["cls"]] for e in o["raised_log"]]))
+    if o.get("wall") is not None:
+        print("host wall clock (env['wall']; plan[i] = event while the i-th body runs):", json.dumps(c["env"]["wall"]),
+              "| events that happened [attempt, stage, reading before, after]:",
+              json.dumps([[n, st, float.fromhex(a), float.fromhex(b)] for n, st, a, b in o["wall"]["events"]]),
+              "| measured durations of the stored results:", json.dumps([float.fromhex(d) for d in o["wall"]["durations"]]))
     if c.get("env") is not None:
         print("worker configuration (env):", json.dumps(c["env"]), "| Receiver kwargs from the command line:", o.get("cli_kw"),
               "| acks:", o.get("acks"), "| dependency teardown:", o.get("teardown"))
